@@ -207,6 +207,8 @@ def dump_blotter(fw, strategies, cls, name_of):
             "bet_lookup": {str(b): name_of(o) for b, o in bl._bet_id_lookup.items()},
             "live": [name_of(o) for o in bl._live_orders],
             "lookups_ok": all(fw.markets.get_order(mid, o.id) is o for o in bl._orders.values()),
+            "cleared": [[market.cleared(c)["betCount"], market.cleared(c)["profit"], market.cleared(c)["commission"]] for c in cls],
+            "matched_by_client": [[sum(1 for o in bl._orders.values() if o.client is c and o.size_matched), round(sum(o.profit for o in bl._orders.values() if o.client is c and o.size_matched), 2)] for c in cls],
             "ctx": {"%d/%s/%s" % (i, k[1], k[2]): [len(rc.trades), len(rc.live_trades)] for i, s in enumerate(strategies) for k, rc in s._invested.items() if k[0] == mid},
         }
     return out
